@@ -300,7 +300,13 @@ class Oracle(object):
 NTS = ["S", "A", "B", "C", "D", "E"]
 TS = ["a", "b", "c", "d"]
 FAMILIES = [("lr1-ish", 38), ("random", 14), ("ambiguous", 10), ("not-lalr", 6), ("epsilon", 8),
-            ("cyclic", 6), ("unproductive", 8), ("unreachable", 4), ("lr2", 6)]
+            ("cyclic", 6), ("unproductive", 8), ("unreachable", 4), ("lr2", 6),
+            # families aimed at the generator's code paths (closure memoisation over cyclic item
+            # graphs, FIRST through nullable symbols, goto sharing): see _mutual_leftrec etc.
+            ("mutual-leftrec", 12), ("hidden-leftrec", 5), ("rec-mix", 6), ("shared-closure", 6),
+            ("unit-chain", 5)]
+# families whose grammars are additionally compared with the Earley oracle on longer strings
+DEEP_FAMILIES = ("mutual-leftrec", "hidden-leftrec", "rec-mix", "shared-closure", "unit-chain")
 
 
 def _rename(r, prods, start="S"):
@@ -378,6 +384,140 @@ def _random(r):
         prods.append((r.choice(nts), tuple(r.choice(nts + ts + ts)
                                            for _ in range(r.choice([0, 1, 1, 2, 2, 3, 4])))))
     return prods
+
+
+def _mutual_leftrec(r):
+    """Indirect / mutual left recursion through a cycle of 2-4 nonterminals N0 -> N1 .. -> N0,
+    some of them nullable, with extra (left-corner) references across the cycle: the LR(1) item
+    graph of such a grammar has cycles of length > 1 through several lookahead groups."""
+    k = r.choice([2, 2, 3, 3, 4])
+    nts = ["S"] + r.sample(["A", "B", "C", "D"], k - 1)
+    ts = TS[:r.choice([2, 2, 3, 3])]
+    prods = []
+    XREF = r.choice([0.0, 0.1, 0.1, 0.25, 0.4])     # cycle members in non-leftmost positions
+
+    def tail(lo, hi, allow_nt=True):
+        out = []
+        for _ in range(r.randint(lo, hi)):
+            out.append(r.choice(nts) if allow_nt and r.random() < XREF else r.choice(ts))
+        return tuple(out)
+    for i, n in enumerate(nts):
+        nxt = nts[(i + 1) % k]
+        # the edge of the cycle: n -> nxt ...   (sometimes through a second cycle member)
+        if r.random() < 0.3:
+            prods.append((n, (nxt, r.choice(nts)) + tail(1, 1, False)))
+        else:
+            prods.append((n, (nxt,) + tail(0 if r.random() < 0.15 else 1, 2)))
+        # alternatives: epsilon, a terminal base case, direct left recursion, a back edge
+        for _ in range(r.choice([0, 1, 1, 1, 2])):
+            kind = r.random()
+            if kind < 0.35:
+                prods.append((n, ()))
+            elif kind < 0.6:
+                prods.append((n, (r.choice(ts),) + tail(0, 1)))
+            elif kind < 0.8:
+                prods.append((n, (n,) + tail(1, 2, False)))
+            else:
+                prods.append((n, (r.choice(nts),) + tail(1, 2)))
+    if not any(all(x not in nts for x in rr) for _, rr in prods):
+        prods.append((r.choice(nts), r.choice([(), (r.choice(ts),)])))
+    r.shuffle(prods)
+    return list(dict.fromkeys(prods))[:11]
+
+
+def _hidden_leftrec(r):
+    """Left recursion behind a nullable prefix (A -> P A x with P =>* eps), direct or through a
+    second nonterminal; P is sometimes only *apparently* nullable."""
+    ts = TS[:r.choice([2, 3])]
+    t = lambda: r.choice(ts)
+    prods = [("P", ()) if r.random() < 0.8 else ("P", (t(),))]
+    if r.random() < 0.5:
+        prods.append(("P", (t(),)))
+    if r.random() < 0.3:
+        prods.append(("P", ("Q",)))
+        prods.append(("Q", ()))
+    shape = r.choice(["direct", "indirect", "right"])
+    if shape == "direct":
+        prods += [("X", ("P", "X", t())), ("X", (t(),))]
+    elif shape == "indirect":
+        prods += [("X", ("P", "Y", t())), ("Y", ("X", t())), ("Y", (t(),))]
+        if r.random() < 0.5:
+            prods.append(("X", (t(),)))
+    else:
+        prods += [("X", ("P", t(), "X")), ("X", ("P",))]
+    return _embed(r, prods, "X")
+
+
+def _rec_mix(r):
+    """Right, centre and left recursion mixed in one grammar."""
+    ts = TS[:r.choice([2, 3, 3])]
+    t = lambda: r.choice(ts)
+    free = ["A", "B", "C", "D"]
+    r.shuffle(free)
+    prods = []
+    names = ["S"] + free[:r.randint(1, 3)]
+    for i, n in enumerate(names):
+        sub = names[i + 1] if i + 1 < len(names) else None
+        kind = r.choice(["right", "centre", "left", "both"])
+        el = sub if sub and r.random() < 0.7 else t()
+        if kind == "right":
+            prods += [(n, (t(), n)), (n, (el,))]
+        elif kind == "centre":
+            o, c = t(), t()
+            prods += [(n, (o, n, c)), (n, (el,) if r.random() < 0.7 else ())]
+        elif kind == "left":
+            prods += [(n, (n, t(), el) if r.random() < 0.5 else (n, el)), (n, (el,) if r.random() < 0.7 else ())]
+        else:
+            prods += [(n, (n, t())), (n, (t(), n, t())), (n, (el,))]
+    if r.random() < 0.3:       # a back reference to the start: recursion through the whole grammar
+        prods.append((names[-1], (t(), "S", t())))
+    return prods[:11]
+
+
+def _shared_closure(r):
+    """Many items sharing one closure: layered expression grammars / several productions that
+    start with the same nonterminal in different right contexts (different lookahead sets)."""
+    ts = TS[:r.choice([3, 4, 4])]
+    t = lambda: r.choice(ts)
+    if r.random() < 0.5:
+        ops = r.sample(ts, 2)
+        atom = [x for x in ts if x not in ops] or [ts[0]]
+        prods = [("S", ("S", ops[0], "A")), ("S", ("A",)), ("A", ("A", ops[1], "B")), ("A", ("B",)),
+                 ("B", (atom[0],))]
+        if len(atom) > 1 and r.random() < 0.7:
+            prods.append(("B", (atom[1], "S", atom[1])) if r.random() < 0.5 else ("B", (atom[1], "B")))
+        if r.random() < 0.3:
+            prods.append(("B", ()))
+        return prods
+    x = "A"
+    prods = []
+    for _ in range(r.randint(2, 4)):
+        prods.append(("S", (x, t()) if r.random() < 0.6 else (t(), x, t())))
+    prods.append(("S", (t(), x)) if r.random() < 0.5 else ("S", (x,)))
+    prods += [(x, (x, t())) if r.random() < 0.4 else (x, (t(), x)), (x, (t(),) if r.random() < 0.6 else ())]
+    if r.random() < 0.5:
+        prods += [(x, ("B",)), ("B", (t(), "B")) if r.random() < 0.5 else ("B", ("B", t())), ("B", (t(),))]
+    return list(dict.fromkeys(prods))[:11]
+
+
+def _unit_chain(r):
+    """Deep unit chains S -> A -> B -> C -> D with branches at different depths."""
+    depth = r.randint(3, 5)
+    names = (["S", "A", "B", "C", "D", "E"])[:depth + 1]
+    ts = TS[:r.choice([2, 3])]
+    t = lambda: r.choice(ts)
+    prods = []
+    for i in range(depth):
+        prods.append((names[i], (names[i + 1],)))
+        if r.random() < 0.5:
+            prods.append((names[i], (names[i + 1], t()) if r.random() < 0.5 else (t(), names[i + 1])))
+    last = names[depth]
+    prods.append((last, (t(),)))
+    if r.random() < 0.4:
+        prods.append((last, ()))
+    if r.random() < 0.4:
+        prods.append((last, (t(), names[r.randrange(depth)], t())))
+    return prods[:11]
 
 
 def _embed(r, core, core_start):
@@ -478,11 +618,21 @@ def random_grammar(r, family=None):
             [("X", ("a", "A", "b", "a")), ("X", ("a", "B", "b", "b")), ("A", ()), ("B", ())],
         ])
         prods = _rename(r, _embed(r, core, "X"))
+    elif family == "mutual-leftrec":
+        prods = _mutual_leftrec(r)
+    elif family == "hidden-leftrec":
+        prods = _rename(r, _hidden_leftrec(r))
+    elif family == "rec-mix":
+        prods = _rec_mix(r)
+    elif family == "shared-closure":
+        prods = _shared_closure(r)
+    elif family == "unit-chain":
+        prods = _unit_chain(r)
     else:
         raise ValueError(family)
     if not any(l == "S" for l, _ in prods) and r.random() < 0.9:
         prods.insert(0, ("S", (r.choice(TS),)))
-    prods = prods[:10]
+    prods = prods[:11 if family in DEEP_FAMILIES else 10]
     o = Oracle("S", prods)
     tags = {family}
     if any(len(rr) == 0 for _, rr in prods):
@@ -497,6 +647,27 @@ def random_grammar(r, family=None):
         tags.add("left-rec")
     if any(rr and rr[-1] == l for l, rr in prods):
         tags.add("right-rec")
+    # left-corner relation (through nullable prefixes): indirect / hidden left recursion
+    lc = {}
+    for l, rr in prods:
+        for i, x in enumerate(rr):
+            if x in o.nonterminals:
+                lc.setdefault(l, set()).add((x, i > 0))
+            if x not in o.nullable:
+                break
+    for a in list(lc):
+        seen, todo = {}, [(x, h, 1) for x, h in lc.get(a, ())]
+        while todo:
+            x, hid, n = todo.pop()
+            if (x, hid) in seen:
+                continue
+            seen[(x, hid)] = n
+            if x == a:
+                if n > 1:
+                    tags.add("indirect-left-rec")
+                if hid:
+                    tags.add("hidden-left-rec")
+            todo.extend((y, hid or h, n + 1) for y, h in lc.get(x, ()))
     # unit/nullable cycle A =>+ A
     edges = {}
     for l, rr in prods:
